@@ -629,7 +629,9 @@ func oneCase(jsonOnly bool) func(k *vlib.Case) {
 		c.Count("source_close_calls", int64(o.closesAfter))
 		c.Count("next_after_end_calls(observed only)", int64(o.afterEnd))
 		c.Count("premature_source_closes(observed only)", int64(o.premature))
-		c.Max("max_readahead_beyond_ideal", int64(v.seen-v.ideal))
+		if v.seen == v.ideal+1 {
+			c.Count("pipelines_reading_one_ahead", 1)
+		}
 		c.Max("max_depth", int64(depth))
 		if v.seen == v.ideal {
 			c.Count("pipelines_reading_exactly_ideal", 1)
